@@ -1,6 +1,6 @@
 /* C10 -- skeleton classes (trusted) around the real text of modeKernel_t::setupRun.
  * Field names and types are checked against the real headers by the recipe.
- * /*@...@*/ placeholders are filled with text extracted from /repo each run. */
+ * The @NAME@ placeholders are filled with text extracted from /repo each run. */
 #include <verif_base.h>
 #include <string>
 
@@ -36,7 +36,7 @@ namespace occa {
 
   class primitive { public:
     int type;
-    struct { void *ptr; } value;                         /* the member of the real union that isNull() reads */
+    struct { char *ptr; } value;                         /* the member of the real union that isNull() reads */
     /*@PRIMITIVE_PREDICATES@*/
   };
 
